@@ -1,5 +1,5 @@
-CONSTANTS MaxLen = 3  MaxArgs = 2  MaxLen2 = 0  Bug = "PctEndIndex"  AdjLen = 3  Emit = FALSE
-CONSTANT Families = {"scan"}
+CONSTANTS MaxLen = 0  MaxArgs = 2  MaxLen2 = 0  Bug = "PadLeak"  AdjLen = 3  Emit = FALSE
+CONSTANT Families = {"adj"}
 CONSTANT Alphabet <- MCAlphabet  Alphabet2 <- MCAlphabet2  ScanVals <- MCScanVals  Vals <- MCVals  AdjTokens <- MCAdjTokens  WidthStrs <- MCWidthStrsQuick
 INIT Init
 NEXT Next
